@@ -741,6 +741,15 @@ class MyPyAstVisitor:
             lvalue = lvalue.expr
 
         if isinstance(lvalue, mp_nodes.NameExpr | mp_nodes.MemberExpr):
+            # In a constructor only the members of the instance itself are attributes of the class, not local variables
+            # or members of other objects
+            if not is_static and not (
+                isinstance(lvalue, mp_nodes.MemberExpr)
+                and isinstance(lvalue.expr, mp_nodes.NameExpr)
+                and getattr(lvalue.expr.node, "is_self", False)
+            ):
+                return attributes
+
             if self._is_attribute_already_defined(lvalue.name):
                 return attributes
 
